@@ -25,6 +25,7 @@ DECIDES = (
     ' lengths in the optimisation package are taken of vectors, not positions (C13.AFFINE-KINDS); link transforms as linear forms (C13.LINK-RELATION = C17.LINK-ALGEBRA).'
     ' Clamp and link constructors keep private copies of the coordinates they capture (C13.OWNS-GEOMETRY); the angle handed to functions.rotate is dimensionless (C13.ANGLE-DIMENSION).'
     " The rollback decision compares self.grid.quality measured before the minimiser with self.grid.quality re-measured after it - not the minimiser's own best value (part of C13.ROLLBACK); arrays stored into in place are created as float arrays (C13.FLOAT-STORES); the copy-back moves every vertex / face to the grid point of its index (C13.BACKPORT-TABLE)."
+    ' GridBase.quality is the sum over cells (C13.GRID-QUALITY); SymmetryLink gives the exact mirror image on either side of the plane (C13.SYMMETRY-EXACT); the reflection matrix (C13.MIRROR-MATRIX).'
 )
 NOT_DECIDED = "'never worsens', constraint satisfaction and bounds: numerical minimisation."
 ASSUMPTIONS = ["copy.copy / np.copy / np.array / list() of clamp.params is a snapshot independent of later update_params calls"]
